@@ -18,6 +18,10 @@ class Unsupported(EngineError):
     pass
 
 
+class UnresolvedName(Unsupported):
+    pass
+
+
 class PathEnd(Exception):
     pass
 
